@@ -193,6 +193,27 @@ func c19CheckErr(err error, brk int, desc string, rec *Recorder) *Disc {
 	if n != wantCalls {
 		return discf("%s: range loop with break after item %d ran %d iterations, want %d", desc, brk, n, wantCalls)
 	}
+	// (d) the value All returns describes err's leaves, it is not a one-shot cursor: ranging over the SAME
+	// value again, after a complete pass and after an interrupted one, yields exactly the leaves each time
+	seq := cfgerrors.All(err)
+	for pass := 0; pass < 3; pass++ {
+		var again []error
+		k := 0
+		for e := range seq {
+			again = append(again, e)
+			k++
+			if pass == 1 && k > brk {
+				break // interrupt the second pass
+			}
+		}
+		rec.Eval(1)
+		if pass == 1 {
+			continue
+		}
+		if len(again) != len(want) || !multisetSub(again, want) || !multisetSub(want, again) {
+			return discf("%s: ranging over the same All(err) value again (pass %d, pass 1 was interrupted after item %d) yielded %d errors %v; the tree has %d leaves %v", desc, pass, brk, len(again), again, len(want), want)
+		}
+	}
 	return nil
 }
 
@@ -233,7 +254,7 @@ func c19Prop() Prop[C19Case] {
 	return Prop[C19Case]{ID: "C19", Gen: c19Gen, Check: c19Check,
 		Rule: "generator: join trees built recursively with errors.Join (depth up to 11, fan-out up to 13, node budget up to 300, joins of one, nested joins, the same leaf pointer at several positions, equal-but-distinct leaves) from non-nil leaves (the eight cfgerrors types, foreign errors, and single-%w wrappers of plain errors and of joins - which are leaves, not joins) x break position in [-1, leaves]; " +
 			"25% of cases instead use the error returned by NewMiddleware for a many-violation configuration. Oracle: full iteration yields exactly the leaves as a multiset by identity (order is documented as unspecified); " +
-			"with a consumer that stops after k items: exactly k+1 calls to yield, none afterwards (hand-driven iterator and range+break); for configuration errors: count == number of individual violations. " +
+			"with a consumer that stops after k items: exactly k+1 calls to yield, none afterwards (hand-driven iterator and range+break); the SAME value returned by one All call, ranged over three times (the second time interrupted), yields exactly the leaves on every complete pass; for configuration errors: count == number of individual violations. " +
 			"non-trivial = depth >= 2 with the break strictly before the last leaf, or a configuration error with >= 2 leaves; distinct by (tree, break).",
 		Assumptions: []string{"All(nil), multi-%w wrappers (which implement Unwrap() []error themselves) and errors.Join() of nothing are outside the documented contract and not generated"}}
 }
